@@ -381,6 +381,13 @@ func (e *env) buildAlphabet() {
 			e.add(w(sym{Name: fmt.Sprintf("replay(%d<-%d)", i, pv), Class: clsReplay, Sender: i, Byz: i},
 				H, H, sig(e.sks[pv], H.Bytes()), id, sig(e.sks[pv], R)))
 		}
+		// only the block share is another member's (valid) share; the beacon share is the sender's own valid one
+		e.add(w(sym{Name: fmt.Sprintf("replayblock(%d<-%d)", i, nx), Class: clsReplay, Sender: i, Byz: i},
+			H, H, sig(e.sks[nx], H.Bytes()), id, sig(sk, R)))
+		if pv != nx {
+			e.add(w(sym{Name: fmt.Sprintf("replayblock(%d<-%d)", i, pv), Class: clsReplay, Sender: i, Byz: i},
+				H, H, sig(e.sks[pv], H.Bytes()), id, sig(sk, R)))
+		}
 		// garbage block-signature points
 		e.add(w(sym{Name: fmt.Sprintf("garbagesig:offcurve(%d)", i), Class: clsGarbage, Sender: i, Byz: i, Core: true},
 			H, H, offCurve, id, sig(sk, R)))
@@ -465,6 +472,8 @@ type kase struct {
 	Parked []string `json:"parked,omitempty"`
 	// volume histories (flood.go): regenerated from the description
 	Flood *floodCase `json:"flood,omitempty"`
+	// Warm: every member's honest message was verified in this process before the case ran
+	Warm bool `json:"warm,omitempty"`
 }
 
 type finding struct {
@@ -1042,6 +1051,12 @@ func run(c *fw.Ctx) {
 	for _, n := range floodN {
 		getEnv(n).floods(c, &idx, ladder)
 	}
+	// phase 1d: warm process state
+	for _, p := range ps {
+		if p.phLive >= 0 {
+			getEnv(p.n).warm(c, &idx)
+		}
+	}
 	// phase 2: literal enumeration
 	for _, p := range ps {
 		e := getEnv(p.n)
@@ -1067,6 +1082,9 @@ func replay(c *fw.Ctx, raw json.RawMessage) {
 			panic("replay: unknown message " + nm)
 		}
 		seq = append(seq, i)
+	}
+	if k.Warm {
+		e.warmUp()
 	}
 	if k.Flood != nil {
 		if f := e.runFlood(*k.Flood); f != nil {
